@@ -50,6 +50,10 @@ def obs_err(e, loc=False):
          "ip": enc_path(e.relative_path), "sp": enc_path(e.relative_schema_path),
          "msg": msg_hash(e.message), "ctx": [obs_err(c, loc) for c in e.context]}
     if loc:
+        if len(e.message) % 2 == 0:
+            # every other error is looked at through the copy that `create_from` makes of it (what callers do to re-raise
+            # or collect errors): the copy is an error of the same place and locates itself like the original
+            e = type(e).create_from(e)
         o["aip"] = enc_path(e.absolute_path)
         o["asp"] = enc_path(e.absolute_schema_path)
         o["inst"] = enc(e.instance)
